@@ -56,7 +56,7 @@ M = [
  ('r2_stash', 'semantic', 'lib/icinga/checkable-check.cpp', 'if (!(suppressed_types_before & stateNotifications) && (suppressed_types & stateNotifications)) {', 'if (suppressed_types & stateNotifications) {', 'state_before_suppression overwritten by every suppressed state notification'),
  ('r2_stash', 'harmless', 'lib/icinga/checkable-check.cpp', 'if ((suppressed_types_after & conflict) == conflict) {', 'if ((suppressed_types_after & NotificationFlappingStart) && (suppressed_types_after & NotificationFlappingEnd)) {', 'two bit tests instead of a mask comparison'),
  ('r2_stash2', 'semantic', 'lib/icinga/checkable-check.cpp', 'if (suppress_notification || pending) {', 'if (suppress_notification) {', 'pending suppressed state notifications no longer hold back a new one'),
- ('r2_fire', 'semantic', 'lib/icinga/checkable-notification.cpp', 'if (!NotificationReasonSuppressed(type) && !IsLikelyToBeCheckedSoon() && !wasLastParentRecoveryRecent.Get()) {\n\t\t\t\t\tCheckable::OnNotificationsRequested(this, type, GetLastCheckResult()', 'if (!NotificationReasonSuppressed(type) && !wasLastParentRecoveryRecent.Get()) {\n\t\t\t\t\tCheckable::OnNotificationsRequested(this, type, GetLastCheckResult()', 'flapping notifications no longer wait for an imminent check'),
+ ('r2_fire', 'semantic', 'lib/icinga/checkable-notification.cpp', 'if (!NotificationReasonSuppressed(type) && !IsLikelyToBeCheckedSoon() && !wasLastParentRecoveryRecent.Get()) {', 'if (!NotificationReasonSuppressed(type) && !wasLastParentRecoveryRecent.Get()) {', 'flapping notifications no longer wait for an imminent check'),
  ('r2_fire', 'harmless', 'lib/icinga/checkable-notification.cpp', 'int suppressed_types_after (suppressed_types_before & ~subtract);', 'int suppressed_types_after (suppressed_types_before - (suppressed_types_before & subtract));', 'bit clearing written as a subtraction'),
  ('r2_fire2', 'semantic', 'lib/icinga/checkable-notification.cpp', 'if (dynamic_cast<Host*>(this))\n\t\t\t\t\tdiffers = Host::CalculateState(cr->GetState()) != Host::CalculateState(GetStateBeforeSuppression());', '', 'hosts compare raw states again (the defect fixed by 5e50b7a)'),
  ('r2_gate', 'semantic', 'lib/icinga/notification.cpp', 'if (timesEnd != Empty && timesEnd >= 0 && now > checkable->GetLastHardStateChange() + timesEnd) {', 'if (timesEnd != Empty && timesEnd >= 0 && now >= checkable->GetLastHardStateChange() + timesEnd) {', 'times.end window closes one second early'),
@@ -67,6 +67,14 @@ M = [
  ('r2_book', 'semantic', 'lib/icinga/notification.cpp', 'if (type == NotificationProblem && GetInterval() <= 0)\n\t\t\tSetNoMoreNotifications(true);', 'if (type == NotificationProblem && GetInterval() < 0)\n\t\t\tSetNoMoreNotifications(true);', 'interval 0 no longer disables reminders'),
  ('r2_timer', 'semantic', 'lib/notification/notificationcomponent.cpp', 'if (!reachable || checkable->IsInDowntime() || checkable->IsAcknowledged() || checkable->IsFlapping())', 'if (!reachable || checkable->IsInDowntime() || checkable->IsAcknowledged())', 'reminders are sent while flapping'),
  ('r2_timer', 'harmless', 'lib/notification/notificationcomponent.cpp', 'if ((service && service->GetState() == ServiceOK) || (!service && host->GetState() == HostUp))', 'if (service ? service->GetState() == ServiceOK : host->GetState() == HostUp)', 'ternary instead of two guarded disjuncts'),
+ ('r2_isack', 'semantic', 'lib/icinga/checkable.cpp', 'return const_cast<Checkable *>(this)->GetAcknowledgement() != AcknowledgementNone;', 'return GetAcknowledgementRaw() != AcknowledgementNone;', 'IsAcknowledged ignores the expiry (reads the raw attribute): degrades or breaks, never silently accepted'),
+ ('r2_clearack', 'semantic', 'lib/icinga/checkable.cpp', 'SetAcknowledgementExpiry(0);', 'SetAcknowledgementExpiry(GetAcknowledgementExpiry());', 'the expiry survives ClearAcknowledgement: degrades or breaks'),
+ ('r2_ackblock', 'semantic', 'lib/icinga/checkable-check.cpp', '(GetAcknowledgement() == AcknowledgementSticky && IsStateOK(new_state))) {', '(GetAcknowledgement() == AcknowledgementSticky)) {', 'sticky acknowledgements are removed by every state change'),
+ ('r2_ackblock', 'harmless', 'lib/icinga/checkable-check.cpp', 'if (GetAcknowledgement() == AcknowledgementNormal ||\n\t\t\t(GetAcknowledgement() == AcknowledgementSticky && IsStateOK(new_state))) {', 'AcknowledgementType ackNow = GetAcknowledgement();\n\n\t\tif ((ackNow == AcknowledgementSticky && IsStateOK(new_state)) || ackNow == AcknowledgementNormal) {', 'one read into a local, disjuncts reordered'),
+ ('r2_ackblock2', 'unrecognised', 'lib/icinga/checkable-check.cpp', 'if (GetAcknowledgement() == AcknowledgementNormal ||\n\t\t\t(GetAcknowledgement() == AcknowledgementSticky && IsStateOK(new_state))) {', 'if ((IsStateOK(new_state) && GetAcknowledgement() == AcknowledgementSticky) || GetAcknowledgement() == AcknowledgementNormal) {', 'the first read of GetAcknowledgement() becomes conditional: hoisting is not exact, must degrade'),
+ ('r2_apiack', 'semantic', 'lib/icinga/apiactions.cpp', 'if (timestamp <= Utility::GetTime())\n\t\t\treturn ApiActions::CreateResult(409, "Acknowledgement \'expiry\'', 'if (timestamp < Utility::GetTime())\n\t\t\treturn ApiActions::CreateResult(409, "Acknowledgement \'expiry\'', 'an expiry equal to now is accepted'),
+ ('r2_apiack', 'harmless', 'lib/icinga/apiactions.cpp', '\tif (!service) {\n\t\tif (host->GetState() == HostUp)\n\t\t\treturn ApiActions::CreateResult(409, "Host " + checkable->GetName() + " is UP.");\n\t} else {\n\t\tif (service->GetState() == ServiceOK)\n\t\t\treturn ApiActions::CreateResult(409, "Service " + checkable->GetName() + " is OK.");\n\t}', '\tif (service && service->GetState() == ServiceOK)\n\t\treturn ApiActions::CreateResult(409, "Service " + checkable->GetName() + " is OK.");\n\n\tif (!service && host->GetState() == HostUp)\n\t\treturn ApiActions::CreateResult(409, "Host " + checkable->GetName() + " is UP.");', 'two guarded tests instead of if/else'),
+ ('r2_cluster', 'semantic', 'lib/icinga/clusterevents.cpp', '\tif (checkable->IsAcknowledged()) {\n\t\tLog(LogWarning, "ClusterEvents")\n\t\t\t<< "Discarding \'acknowledgement set\' message for checkable', '\tif (false && checkable->IsAcknowledged()) {\n\t\tLog(LogWarning, "ClusterEvents")\n\t\t\t<< "Discarding \'acknowledgement set\' message for checkable', 'the cluster handler overwrites an existing acknowledgement'),
  ('is_child_of', 'unrecognised', 'lib/remote/zone.cpp', '\tZone::Ptr azone = this;\n', '\tZone::Ptr azone = GetParent();\n', 'call outside the binding environment: degrades'),
 ]
 
